@@ -17,6 +17,41 @@ META = {
 }
 
 
+def run_group(nholders, rounds, T=100):
+    """nholders real connections (one real HostConnection owner each) through the REAL run() for len(rounds) rounds; returns
+    (harnesses, report, violations) -- the oracle reads only scripted facts (reply kind, arrival instant vs T) and the connections"""
+    group = [conn_impl.Harness(n_init=2, max_in_flight=4, thr=2) for _ in range(nholders)]
+    pre = [(g.conn.in_flight, sorted(g.conn.request_ids)) for g in group]
+    report = conn_hb.run_rounds(group, rounds, T=T)
+    out = []
+    dead = [False] * nholders
+    for rd, r in enumerate(rounds):
+        for k in range(nholders):
+            if dead[k]:
+                continue
+            d = (r.get('delays') or [None] * nholders)[k] or 0
+            fails = r['replies'][k] != 'supported' or d > T
+            if fails:
+                dead[k] = True
+    for k, g in enumerate(group):
+        told = len([e for e in g.events if e == [12]])
+        if dead[k]:
+            if not g.conn.is_defunct:
+                out.append(('failed-heartbeat-not-defunct', 'holder %d: heartbeat unanswered / answered after the timeout but the connection is not defunct' % k))
+            if not told:
+                out.append(('failed-heartbeat.wrong-owner-notified', 'holder %d: its owner was never told about the failed heartbeat' % k))
+        else:
+            if g.conn.is_defunct or told:
+                out.append(('healthy-connection-failed' + ('.slow-staggered-replies' if any(r.get('delays') for r in rounds) else ''),
+                            'holder %d answered every heartbeat within the timeout T=%d (arrival instants per round %r) but was marked defunct=%s / its owner '
+                            'notified %d times' % (k, T, [(r.get('delays') or [0] * nholders)[k] for r in rounds], g.conn.is_defunct, told)))
+            elif g.conn.in_flight != pre[k][0] or sorted(g.conn.request_ids) != pre[k][1]:
+                out.append(('capacity-changed' + ('.after-aborted-round' if any(r.get('raise_in_owner') for r in rounds) else ''),
+                            'holder %d: %d successful heartbeats (no failure of its own) changed its capacity: in_flight %d -> %d, free ids %r -> %r; waits on '
+                            'futures of an EARLIER round: %d' % (k, len(rounds), pre[k][0], g.conn.in_flight, pre[k][1], sorted(g.conn.request_ids), g.hb_stale_waits)))
+    return group, report, out
+
+
 def run(ctx):
     ok = ctx.prove('Props/C44.v')
     if ctx.tier == 'thorough' and ok:
@@ -152,6 +187,49 @@ def run(ctx):
                                       % (list(replies), k, told, g.pool.shutdown_on_error), case=case, theorem='C44_capacity_preserved_instances')
                 if not g.problems:
                     hs.append(('holders', cfgs[k], gacts[k], g))
+    # (a) >= 3 heartbeats in one round with slow, staggered replies in VIRTUAL time: every future has the same deadline T;
+    # (b) a round aborted by an exception from the owner's failure handling, followed by further rounds (nothing may be left over)
+    T = 100
+    plans = [(3, [{'replies': ['supported'] * 3, 'delays': [40, 60, 90]}]),
+             (4, [{'replies': ['supported'] * 4, 'delays': [30, 30, 80, 99]}]),
+             (3, [{'replies': ['supported', 'silent', 'supported'], 'delays': [50, None, 95]}]),
+             (3, [{'replies': ['supported'] * 3, 'delays': [40, 60, 130]}]),
+             (3, [{'replies': ['silent', 'supported', 'supported'], 'raise_in_owner': [0]}, {'replies': ['silent', 'supported', 'supported']}]),
+             (3, [{'replies': ['supported', 'error', 'supported'], 'raise_in_owner': [1]}, {'replies': ['supported'] * 3}, {'replies': ['supported'] * 3}]),
+             (2, [{'replies': ['supported', 'supported']}, {'replies': ['supported', 'supported'], 'delays': [10, 70]}])]
+    for _ in range(12 if ctx.tier == 'quick' else 150):
+        n = rng.randint(3, 5)
+        rs = []
+        for _r in range(rng.randint(1, 3)):
+            rs.append({'replies': [rng.choices(['supported', 'silent'], [5, 1])[0] for _k in range(n)],
+                       'delays': [rng.choice([0, 5, 20, 35, 45, 60, 75, 90, 99, 120]) for _k in range(n)]})
+            if rng.random() < 0.3:
+                rs[-1]['raise_in_owner'] = [rng.randrange(n)]
+        plans.append((n, rs))
+    dl_exprs, dl_meta = [], []
+    for n, rs in plans:
+        group, report, found = run_group(n, rs, T)
+        case = {'group': n, 'rounds': rs, 'T': T}
+        ctx.case(['group', n, rs], nontrivial=True, sample={'holders': n, 'rounds': rs, 'waited_ok': [[x['waited_ok'] for x in r] for r in report]})
+        ctx.count('round', 'group-%d-rounds-%d' % (n, len(rs)))
+        for key, what in found:
+            ctx.violation(key, what + '; rounds=%s' % json.dumps(rs), case=case, kind='history', theorem='C44_shared_deadline / C44_rounds_independent')
+        for g in group:
+            for p in g.problems:
+                ctx.disagreement('harness-problem', p[:300], case=case)
+        # the wait phase against Model/Heartbeat.v: per round, the futures run() waited for, in order
+        for rd, r in enumerate(rs):
+            ks = [k for k in range(n) if report[rd][k]['sent'] and report[rd][k]['waited_ok'] is not None]
+            arr = ['None' if r['replies'][k] == 'silent' else '(Some %d)' % ((r.get('delays') or [0] * n)[k] or 0) for k in ks]
+            got = [conn_corr.b(report[rd][k]['waited_ok']) for k in ks]
+            if all(r['replies'][k] != 'error' for k in ks):
+                dl_exprs.append('bools_eqb (wait_phase %d [%s]) [%s]' % (T, '; '.join(arr), '; '.join(got)))
+                dl_meta.append((case, rd))
+    try:
+        for i in ctx.coq_filter(['Heartbeat'], '(fun b : bool => b)', dl_exprs, shard=200)[:5]:
+            ctx.disagreement('model-vs-impl.wait-phase', 'Model/Heartbeat.v wait_phase differs from run() in round %d of %r' % (dl_meta[i][1], dl_meta[i][0]), case=dl_meta[i][0])
+    except RuntimeError as e:
+        ctx.proof_broken.append(('correspondence:Heartbeat', str(e)[-600:]))
     ctx.exhaustive = False
     ctx.rule = '1-5 heartbeat rounds per connection with random traffic in between and replies supported/error/silent; non-trivial = at least 2 rounds'
     conn_check.compare_with_model(ctx, hs, 'C44')
@@ -163,6 +241,14 @@ def key_is_busy(rp):
 
 def replay(ctx, rp):
     case = rp.get('case') or {}
+    if case.get('rounds'):
+        group, report, found = run_group(case['group'], case['rounds'], case.get('T', 100))
+        for k, g in enumerate(group):
+            print('holder %d: defunct=%s in_flight=%d owner notified=%d stale waits=%d' % (k, g.conn.is_defunct, g.conn.in_flight,
+                                                                                           len([e for e in g.events if e == [12]]), g.hb_stale_waits))
+        print('oracle', found)
+        print(('VIOLATION property=C44 replay=%s' % ctx.replay_path) if found else 'not reproduced')
+        return 1 if found else 0
     if case.get('holders'):
         group = [conn_impl.Harness(n_init=2, max_in_flight=4, thr=2) for _ in case['holders']]
         conn_hb.run_round(group, list(case['holders']))
